@@ -74,6 +74,74 @@ fn sort_value(v: &mut Value) {
     }
 }
 
+/// Order- and identifier-independent canonical report of a reader: `json()` + `detailed_json()` + state, with
+/// every UUID-shaped identifier replaced by `<id>` (no numbering: numbering by first occurrence depends on map
+/// iteration order), validation time dropped, object members sorted by their rendering (so two members whose keys
+/// differ only in an identifier cannot swap), arrays of status objects sorted. `mask_digests` additionally masks
+/// hash values (needed when comparing two separate signing runs).
+pub fn canon2(r: &c2pa::Reader, mask_digests: bool) -> String {
+    let j: Value = serde_json::from_str(&r.json()).unwrap_or(Value::Null);
+    let d: Value = serde_json::from_str(&r.detailed_json()).unwrap_or(Value::Null);
+    let mut v = serde_json::json!({"json": j, "detailed": d, "state": crate::sdk::state_name(r.validation_state())});
+    if mask_digests {
+        mask_hashes(&mut v);
+    }
+    render(&v)
+}
+
+/// The same rendering for any serialisable SDK value.
+pub fn canon2_value<T: serde::Serialize>(v: &T) -> String {
+    render(&serde_json::to_value(v).unwrap_or(Value::Null))
+}
+
+fn mask_all_ids(s: &str) -> String {
+    let n = norm_ids(s);
+    // norm_ids numbers the identifiers; drop the numbers
+    let mut out = String::with_capacity(n.len());
+    let b = n.as_bytes();
+    let mut i = 0;
+    while i < b.len() {
+        if b[i] == b'<' && i + 2 < b.len() && b[i + 1] == b'u' && b[i + 2].is_ascii_digit() {
+            let mut j = i + 2;
+            while j < b.len() && b[j].is_ascii_digit() {
+                j += 1;
+            }
+            if j < b.len() && b[j] == b'>' {
+                out.push_str("<id>");
+                i = j + 1;
+                continue;
+            }
+        }
+        let ch_len = n[i..].chars().next().map(|c| c.len_utf8()).unwrap_or(1);
+        out.push_str(&n[i..i + ch_len]);
+        i += ch_len;
+    }
+    out
+}
+
+fn render(v: &Value) -> String {
+    match v {
+        Value::Object(m) => {
+            let mut parts: Vec<String> = m
+                .iter()
+                .filter(|(k, _)| k.as_str() != "validation_time" && k.as_str() != "validationTime")
+                .map(|(k, x)| format!("{}:{}", serde_json::to_string(&mask_all_ids(k)).unwrap_or_default(), render(x)))
+                .collect();
+            parts.sort();
+            format!("{{{}}}", parts.join(","))
+        }
+        Value::Array(a) => {
+            let mut parts: Vec<String> = a.iter().map(render).collect();
+            if !a.is_empty() && a.iter().all(|x| x.get("code").is_some()) {
+                parts.sort();
+            }
+            format!("[{}]", parts.join(","))
+        }
+        Value::String(s) => serde_json::to_string(&mask_all_ids(s)).unwrap_or_default(),
+        other => other.to_string(),
+    }
+}
+
 /// Canonical report with every digest value masked: what two *separate signing runs* of the same definition must
 /// agree on (their assertion/claim hashes differ because labels and instance ids are random).
 pub fn canon_masked(r: &c2pa::Reader) -> String {
@@ -137,6 +205,7 @@ pub fn err_class(e: &c2pa::Error) -> String {
 mod tests {
     #[test]
     fn ids() {
+        assert_eq!(super::mask_all_ids("a urn:c2pa:123e4567-e89b-12d3-a456-426614174000 <u9 b"), "a urn:c2pa:<id> <u9 b");
         let a = super::norm_ids("x urn:c2pa:123e4567-e89b-12d3-a456-426614174000 y 123e4567-e89b-12d3-a456-426614174000 z 00000000-0000-0000-0000-000000000001");
         assert_eq!(a, "x urn:c2pa:<u0> y <u0> z <u1>");
     }
